@@ -24,6 +24,7 @@ import (
 	wcmd "github.com/hnakamur/whispertool/cmd"
 
 	"verif/fw"
+	"verif/model"
 	"verif/vrt"
 	"verif/wsp"
 )
@@ -274,6 +275,40 @@ func c15Enum(thorough bool, f func(k c15Case)) {
 		emit("remote-items", []byte(s))
 		emit("remote-files", []byte(s))
 	}
+	// remote /view answers consumed by diff against a local file: answers that agree with the local read in the selected
+	// archive(s) but carry values for archives the local side did not select, more or fewer values than the bounds say,
+	// or no series where the local side has one.  First byte of the case: archive selection + 1.
+	for hi, tag := range []string{"L5", "L6"} {
+		ld := LayoutByTag(tag)
+		h := wsp.Layout{Archs: ld.Archs, Method: 2, XFF: 0.5}.EncodeHeader()
+		_ = hi
+		var honest [][]byte
+		for i := range ld.Archs {
+			sh := model.FetchShape(ld.Archs, i, 0, c15DiffNow, c15DiffNow)
+			honest = append(honest, series(uint32(sh.From), uint32(sh.Until), uint32(sh.Step), sh.N))
+		}
+		absent := series(0, 0, 0, 0)
+		for sel := 0; sel <= len(ld.Archs); sel++ { // 0: all archives, i+1: archive i
+			variants := [][][]byte{honest}
+			for i := range ld.Archs {
+				v1 := append([][]byte{}, honest...)
+				v1[i] = absent
+				sh := model.FetchShape(ld.Archs, i, 0, c15DiffNow, c15DiffNow)
+				v2 := append([][]byte{}, honest...)
+				v2[i] = series(uint32(sh.From), uint32(sh.Until), uint32(sh.Step), sh.N+1)
+				v3 := append([][]byte{}, honest...)
+				v3[i] = series(uint32(sh.From), uint32(sh.Until)+uint32(sh.Step), uint32(sh.Step), sh.N+1)
+				variants = append(variants, v1, v2, v3)
+			}
+			for _, v := range variants {
+				b := append([]byte{byte(sel)}, h...)
+				for _, sr := range v {
+					b = append(b, sr...)
+				}
+				emit("remote-view-diff", b)
+			}
+		}
+	}
 	// remote responses: header + per-archive series / point lists, mutated in the element framing
 	for _, h := range headers[:2] {
 		k := (len(h) - 16) / 12
@@ -404,6 +439,9 @@ func startRawStub() *c15RawStub {
 	return st
 }
 
+// c15DiffNow is the clock of the remote-view-diff cases.
+const c15DiffNow = 1700000000
+
 var c15FileSeq int
 
 func c15RunCase(dir string, stub *c15Stub, k c15Case) (class string, alloc uint64) {
@@ -484,6 +522,28 @@ func c15RunCase(dir string, stub *c15Stub, k c15Case) (class string, alloc uint6
 				err = c.Execute()
 			}
 			if err != nil {
+				class = "err"
+			}
+		case "remote-view-diff":
+			if stub == nil || len(data) < 17 {
+				class = "skip"
+				return
+			}
+			stub.body.Store(data[1:])
+			tag := "L5"
+			if binary.BigEndian.Uint32(data[13:]) == 3 {
+				tag = "L6"
+			}
+			ld := LayoutByTag(tag)
+			l := wsp.Layout{Archs: ld.Archs, Method: 2, XFF: 0.5}
+			ddir := filepath.Join(dir, "c15diff")
+			r := EmptyRings(l)
+			r[0][uint32(c15DiffNow)%l.Archs[0].N] = wsp.Slot{T: uint32(c15DiffNow), V: 3}
+			(&BFile{L: l, Rings: r}).Write(filepath.Join(ddir, "a.wsp"))
+			vrt.SetNow(c15DiffNow)
+			defer vrt.SetNow(0)
+			c := &wcmd.DiffCommand{SrcBase: stub.url, SrcRelPath: "a.wsp", DestBase: ddir, ArchiveID: int(data[0]) - 1, TextOut: ""}
+			if err := c.Execute(); err != nil {
 				class = "err"
 			}
 		case "remote-view-lying-length", "remote-view-raw-lying-length":
